@@ -1,8 +1,8 @@
 """C19 - results are reproducible (same process, other processes, any PYTHONHASHSEED, any preceding unrelated calls).
 
-check(case) runs a batch of (network, history) items in 4 fresh interpreter processes with different
-PYTHONHASHSEED values; one of them runs every item twice in a row, one runs unrelated library calls
-(another network: build, control, queries) before every item.  All full dumps must be identical."""
+check(case) runs a batch of (network, history) items in 8 (12 for the tie-shaped batches) fresh interpreter
+processes with different PYTHONHASHSEED values; one of them runs every item twice in a row, one runs unrelated
+library calls (another network: build, control, queries) before every item.  All full dumps must be identical."""
 import json
 import os
 import random
@@ -17,10 +17,12 @@ import families  # noqa: E402
 from common import REPO, dump, fail, make_sd, run_history  # noqa: E402
 
 BOUND = ("networks with <= 6(7) variables (exhaustive 1-variable, sampled 2-variable, seeded random) and hand-built networks with <= 9 variables; per item one seeded history of "
-         "1-5 calls (every expansion strategy with default or random limits, attractor queries, skipping, succession_control with both strategies); 4 interpreter "
-         "processes with PYTHONHASHSEED in {0, 1, 4242, seeded random}; full dump (ids, spaces, flags, edges, motif lists in order, depths, candidates, seeds, sets, "
+         "1-5 calls (every expansion strategy with default or random limits, attractor queries, skipping, succession_control with both strategies); 8 interpreter "
+         "processes with PYTHONHASHSEED in {0, 1, 2, 3, 5, 7, 4242, seeded random}; tie-shaped networks (two or three minimal source blocks with the same number of stable "
+         "motifs whose variable names interleave alphabetically, e.g. A<->D, B<->C, E=A&B; switch / toggle / asymmetric modules; seeded name permutations) under build, "
+         "block expansion with and without the motif-avoidance check, scc expansion and succession_control, in 12 processes (hash seeds 0..3, 5, 7..11, 4242, seeded); full dump (ids, spaces, flags, edges, motif lists in order, depths, candidates, seeds, sets, "
          "key index) plus every call's return value (incl. interventions in order) compared for equality; one process repeats each item, one interleaves unrelated calls")
-RULE = "one evaluation = one batch of 12 (network, history) items run in 4 processes; non-trivial = the batch contains an item whose final diagram has >= 3 nodes"
+RULE = "one evaluation = one batch of 12 (network, history) items run in 8 or 12 processes; non-trivial = the batch contains an item whose final diagram has >= 3 nodes"
 CASE_TIMEOUT = 120.0
 BATCH = 12
 
@@ -28,7 +30,31 @@ OPS = families.PLAIN_OPS + families.QUERY_OPS + families.SKIP_OPS + ["block", "c
 NOISE = {"bnet": families.HAND["doc_control"], "history": [["build"], ["control", {"A": 0, "B": 0}, "all", None, [], True, False], ["seeds", 1, False]]}
 
 
+HASHSEEDS = [(0, "plain"), (1, "twice"), (4242, "noise"), (None, "plain"), (2, "plain"), (3, "plain"), (5, "plain"), (7, "plain")]
+MORE_HASHSEEDS = [(8, "plain"), (9, "plain"), (10, "plain"), (11, "plain")]
+
+
+def tie_batches(seed, tier):
+    batch = []
+    for k, (name, bnet) in enumerate(families.tie_nets(seed, tier)):
+        names = families.variables(bnet)
+        target = {v: 1 for v in names}
+        hists = [[["build"]], [["block", False, None, True, False]], [["block", True, None, True, False], ["control", target, "internal", None, [], True, False]],
+                 [["scc", True], ["control", target, "all", 2, [], False, False]]]
+        for h in (hists[:3] if k < 9 else [hists[k % 4]]):
+            batch.append({"net": name, "bnet": bnet, "history": h})
+            if len(batch) == BATCH:
+                yield {"items": batch, "hashseed": random.Random(f"{seed}-{name}-tie").randrange(1, 2 ** 32 - 1), "more_seeds": True}
+                batch = []
+    if batch:
+        yield {"items": batch, "hashseed": random.Random(f"{seed}-tie-last").randrange(1, 2 ** 32 - 1), "more_seeds": True}
+
+
 def cases(seed, tier):
+    yield from families.interleave((tie_batches(seed, tier), 1), (general_batches(seed, tier), 3))
+
+
+def general_batches(seed, tier):
     batch = []
     for name, bnet in families.network_family(seed, tier, hand_max_vars=9):
         names = families.variables(bnet)
@@ -83,7 +109,7 @@ def spawn(items, hashseed, mode):
 
 def check_with_info(case):
     items = case["items"]
-    runs = [(0, "plain"), (1, "twice"), (4242, "noise"), (case["hashseed"], "plain")]
+    runs = [(case["hashseed"] if h is None else h, m) for h, m in HASHSEEDS + (MORE_HASHSEEDS if case.get("more_seeds") else [])]
     results = [spawn(items, h, m) for h, m in runs]
     out = []
     info = {"items": len(items), "max_nodes": 0}
